@@ -159,6 +159,21 @@ fn item<C: Suite>(ctx: &mut Ctx, n: u16, t: u16, source: &str, kind: &str) {
                         }
                     }
                 }
+                // a public key package that is out of date for the repaired participant (same group key and threshold, but its
+                // entry holds another value - what a participant has that slept through a refresh): the repaired key package
+                // is still the one that matches the recovered share
+                if let Some(ix) = pix {
+                    let other = grp.ids[(ix + 1) % grp.ids.len()];
+                    let mut vs = grp.pkp.verifying_shares().clone();
+                    vs.insert(grp.ids[ix], grp.pkp.verifying_shares()[&other]);
+                    let stale = PublicKeyPackage::new(vs, *grp.pkp.verifying_key(), grp.pkp.min_signers());
+                    if let Ok(k3) = C::api_repair_part3(&sigmas, pid, &stale) {
+                        if k3.signing_share() != kp.signing_share() || k3.verifying_share().to_element() != g::<C>() * k3.signing_share().to_scalar() {
+                            ctx.viol("repair-output-inconsistent", "stale-public-package", d("with an out-of-date entry in the public key package the repaired key package's verifying share is not G * its signing share", json!({})));
+                        }
+                        ctx.count("stale_package_repairs");
+                    }
+                }
                 let s = kp.signing_share().to_scalar();
                 // the group polynomial at the participant's identifier
                 let want = match pix {
